@@ -1,13 +1,14 @@
 """C06 - find_jobs returns exactly the jobs a per-job reference evaluator accepts."""
 
 import copy
+import os
 import random
 
 from .. import model, query, sig
 
 PROP = "C06"
 LEVEL = "exploration"
-MONITORS = ["evaluator", "locality", "algebra"]
+MONITORS = ["content_changed_under_handle", "evaluator", "locality", "algebra"]
 RULE = (
     "Corpora of 0-6 jobs (state point keys a, b, n.x, n.z.w; document keys d, m.y; values over ints, "
     "int-valued floats, other floats, bools, None, strings, lists, nested mappings, missing keys; homogeneous, "
@@ -224,5 +225,24 @@ def run_case(ctx, case):
                     ctx.violation(key, "a job's match verdict changes with the presence of other jobs",
                                   {"filter": flt, "job": by_id[jid], "in_full_result": jid in full,
                                    "alone_result": sorted(got1), "corpus": by_id})
+    # the data move on under a long-lived handle, on a clock too coarse to show it: answers follow the data
+    if case["fseed"] % 4 == 0 and "only_filter" not in case:
+        import signac
+
+        changed = False
+        for jid, jd in by_id.items():
+            d = jd["doc"].get("d")
+            if isinstance(d, int) and not isinstance(d, bool) and 0 <= d <= 8:
+                fn = os.path.join(project.path, "workspace", jid, model.DOC_FILE)
+                st = os.stat(fn)
+                signac.Project(project.path).open_job(id=jid).document["d"] = d + 1  # through another handle
+                if os.stat(fn).st_size == st.st_size:
+                    os.utime(fn, ns=(st.st_atime_ns, st.st_mtime_ns))
+                jd["doc"]["d"] = d + 1
+                changed = True
+        if changed:
+            ctx.monitor("content_changed_under_handle")
+            for flt in [{"doc.d": v} for v in range(0, 10)] + [{"$not": {"doc.d": 1}}, {"doc.d": {"$gt": 1}}]:
+                judge(ctx, project, by_id, flt, [])
     if filters:
         ctx.sample({"corpus": corpus[:3], "filter": filters[-1]})
